@@ -9,14 +9,15 @@ PANIC = re.compile(r"(panic:|fatal error:|goroutine \d+ \[|runtime error)")
 
 def storage_tie(ctx, seed, n, prop="C12"):
     p = subprocess.run([ctx.ev, "fn-storage", str(seed), str(n)], stdout=subprocess.PIPE, text=True)
-    cases = [json.loads(l) for l in p.stdout.splitlines()]
+    cases = [json.loads(l) for l in p.stdout.split("\n") if l]
     outs = common.model_batch([c["req"] for c in cases])
     nd, classes = 0, {}
     for c, o in zip(cases, outs):
         go = c["go"]
         k = go["read"].get("err", "ok"); classes[k] = classes.get(k, 0) + 1
-        g = {"read": {a: b for a, b in go["read"].items() if a != "names_file"}, "after": go["after"], "read_after": {a: b for a, b in go["read_after"].items() if a != "names_file"}}
-        m = {"read": o["read"], "after": o["after"], "read_after": o["read_after"]}
+        g = {"read": {a: b for a, b in go["read"].items() if a != "names_file"}, "after": go["after"], "read_after": {a: b for a, b in go["read_after"].items() if a != "names_file"},
+             "class_mismatch": []}
+        m = {"read": o["read"], "after": o["after"], "read_after": o["read_after"], "class_mismatch": o.get("class_mismatch")}
         uniq = len({common.canon(a["event"]) for a in c["req"]["append"]}) == len(c["req"]["append"])
         if common.canon(g) != common.canon(m) or (uniq and o["after"] != o["after_model"]) or "append_err" in go:
             nd += 1
@@ -27,6 +28,20 @@ def storage_tie(ctx, seed, n, prop="C12"):
             ctx.violation("%s parse error does not name the file" % prop, "readEvents' message for an invalid line does not start with the path", {"file_tail": bytes.fromhex(c["req"]["file"])[-160:].decode("utf-8", "replace")})
     ctx.tie("T2-fn readEvents/appendEvents (byte level)", cases=len(cases), classes=classes, disagreements=nd)
     ctx.count(len(cases))
+
+
+def codec_tie(ctx, seed, n):
+    """T2-fn: the line codec, byte level — real json.Marshal / json.Unmarshal / time.Parse vs ErgoModel.Codec / ErgoModel.Time."""
+    res = fndiff.run_stream(ctx.ev, ["fn-codec", str(seed), str(n)])
+    kinds = {}
+    p = res.get("kinds", {})
+    ctx.tie("T2-fn line codec (encodeEvent, classifyLine, time stamps; byte level)", cases=res["cases"], disagreements=len(res["diffs"]))
+    ctx.count(res["cases"])
+    for d in res["diffs"][:3]:
+        req = d["req"]
+        ctx.tie_broken("T2-fn line codec", {"first_difference": fndiff.first_difference(d["go"], d["model"]),
+                                            "line": bytes.fromhex(req["line"]).decode("utf-8", "backslashreplace")[:400] if "line" in req else None,
+                                            "req": {k: v for k, v in req.items() if k != "line"}})
 
 
 def dir_state(st):
@@ -254,6 +269,7 @@ def read_programs(ctx):
 def run(ctx):
     framework.check_facts(ctx, ctx.facts, ["map_ranges", "writer_calls", "replay_cases", "truncate_sites"])
     storage_tie(ctx, ctx.seed + 1200, 600 if ctx.quick else 8000)
+    codec_tie(ctx, ctx.seed + 1250, 500 if ctx.quick else 12000)
     res = fndiff.run_stream(ctx.ev, ["fn-replay", str(ctx.seed + 1201), "1500" if ctx.quick else "20000"])
     ctx.tie("T2-fn replay (total on every event list)", cases=res["cases"], classes=res["classes"], disagreements=len(res["diffs"]))
     ctx.count(res["cases"])
